@@ -301,10 +301,10 @@ CLAIMED['C38'] = dict(
     level='other', engine='symx (solver-driven enumeration)',
     text="Bounded exhaustive exploration, driven by the solver: for each of the 133 control-flow shapes of 3 blocks (thorough: plus 300 "
          "4-block shapes) the statements of every block are solver variables over a 6-entry statement table (definitions, uses, "
-         "parallel swap, branch condition); the real ReachingDefinitions, DiGraphDefUse, DiGraphLiveness and DiGraphLivenessIRA run "
-         "on each IRCFG and are compared, at every program point, with path-search oracles on the point graph.",
+         "parallel swap, branch condition); the real ReachingDefinitions, DiGraphDefUse, DiGraphLiveness, DiGraphLivenessIRA (and DiGraphLivenessSSA on "
+         "the SSA form) run on each IRCFG and are compared, at every program point, with path-search oracles on the point graph.",
     note="Enumeration, not symbolic reasoning: variables are hashed by the implementation. Register variables only; "
-         "DiGraphLivenessSSA and graphs with block-less destinations are outside the claim.",
+         "graphs with block-less destinations are outside the claim.",
     technique="bounded exhaustive exploration of small IR graphs enumerated by the SMT solver against path-search oracles",
     design_ref="DESIGN.md §3 C38")
 
